@@ -23,6 +23,7 @@ LEVEL_TEXT = ("seeded search over (section mix, image sizes incl. 64 KiB page cr
 LEVEL_NOTE = ("conservative sub-grammar: every section states all of its instructions itself (CHECK_FWVER first), so expected "
               "tags follow from the property text and not from how instructions persist; instruction lines are never faulted")
 RUNS = {"quick": 16000, "thorough": 600000}
+OPTIMIZED_PASS = {"quick": 800, "thorough": 12000}   # extra runs under PYTHONOPTIMIZE=1 (assert statements removed)
 RULE = ("per run one BF2 text (1-4 sections over all mapped and ignored tag types, images 1..N bytes) and one fault kind in "
         "{none, line lost, line duplicated, two lines swapped} at a seeded or structural position inside one section's data "
         "lines; also the memory-image helpers on the same faulted line group; non-trivial = a fault changed the text or the "
@@ -31,7 +32,7 @@ REAL = ["bec2format.bf3file (parse_bf2_file, bf2_import, exec_bf2instrs, bf2_unp
         "annotations, pfid2_filter_to_str)", "bec2format.hwcids"]
 STUBS = ["medium: SimFS (text layer, CRLF)", "BF2 generator + ground truth + RefBF2 (sim/bf2gen.py)", "filter-expression "
          "evaluator (this file)"]
-PROBES = ["unknown-tag-type", "whole-page-lost", "middle-page-lost", "page-crossing", "gap-before-last-line", "gap-at-first-line", "lost-last-line", "dup-line", "swap-lines",
+PROBES = ["runs-with-assertions-disabled", "unknown-tag-type", "whole-page-lost", "middle-page-lost", "page-crossing", "gap-before-last-line", "gap-at-first-line", "lost-last-line", "dup-line", "swap-lines",
           "ignored-section", "no-marker", "blob-gap-rejected", "bf2compat-faulted", "memimage-helper", "filter-expression",
           "three-types-sorted", "crlf"]
 ASSUMPTIONS = ["hardware-id names used in comparisons are transcribed into sim/bf2gen.py"]
